@@ -164,7 +164,7 @@ class Session:
             prepare(self.dir)
         quoted = ' '.join("'" + a.replace("'", "'\\''") + "'" for a in [fzf, '--listen', 'localhost:%d' % self.port] + list(args))
         envs = ' '.join("%s='%s'" % (k, v.replace("'", "'\\''")) for k, v in (env or {}).items())
-        src = input_cmd or ("cat '%s'" % self.inp)
+        src = (input_cmd.replace('{d}', self.dir) if input_cmd else None) or ("cat '%s'" % self.inp)
         script = "%s | env FZF_DEFAULT_OPTS= FZF_DEFAULT_COMMAND= %s %s > '%s' 2> '%s'; echo $? > '%s'" % (src, envs, quoted, self.out, self.err, self.rc)
         if wrap:
             # run the pipeline inside a larger script ({d} = the session directory)
@@ -315,7 +315,7 @@ DRIVERS = {'pipe': drv_pipe, 'race': drv_race}
 
 def run(name, tier, seed, ctx):
     if name not in DRIVERS:
-        import procs_tmux, procs_conv, procs_prev, procs_screen, procs_robust, procs_hist  # register the interactive drivers
+        import procs_tmux, procs_conv, procs_prev, procs_screen, procs_robust, procs_hist, procs_expand  # register the interactive drivers
     return DRIVERS[name](tier, seed, ctx)
 
 
@@ -334,6 +334,9 @@ def replay(rp, ctx):
     if pr.get('kind') == 'tmux-preview':
         import procs_prev
         return procs_prev.replay(rp, ctx)
+    if pr.get('kind') == 'tmux-expand':
+        import procs_expand
+        return procs_expand.replay(rp, ctx)
     if pr.get('kind') == 'tmux-hist':
         import procs_hist
         return procs_hist.replay(rp, ctx)
